@@ -138,6 +138,24 @@ func c15dom(c *core.Ctx) {
 			// loop over p.Statements
 			h, _, _ := stmtLoopOf(fn, "PragmaCheckRequest")
 			ok = ok && h != nil
+			// no statement is skipped: from the start of the loop body every path to the next
+			// iteration (or out of the loop) passes the test
+			if ok && h != nil && len(h.Succs) > 0 {
+				body := h.Succs[0]
+				ci := calls[0].(ssa.Instruction)
+				hits := an.Ungated(an.CutSpec{Fn: fn, StartBlocks: []*ssa.BasicBlock{body},
+					GateInstr: func(in ssa.Instruction) bool { return in == ci },
+					Sink: func(in ssa.Instruction) bool {
+						if len(h.Instrs) > 0 && in == h.Instrs[0] {
+							return true
+						}
+						_, isR := in.(*ssa.Return)
+						return isR
+					}})
+				if len(hits) > 0 {
+					ok = false
+				}
+			}
 		}
 		c.Result(ok, "C15.a", "DOM", "PragmaCheckRequest.Check:all-statements", c.P.Pos(fn.Pos()),
 			"Check ranges over every statement and returns an error as soon as IsBreakingPragma holds",
